@@ -365,6 +365,62 @@ func c03R4(c *Ctx) {
 						return ok && isMethodNamed(call, "schema.StepOutputSchema", "Unserialize")
 					})
 				}) != nil
+				if !lookupOK || !valOK {
+					// the two checks live in a helper (`if err := e.checkOutput(id, data, lastErrors); err != nil { return … }`):
+					// the success return is on the nil side of its error, and every nil return of the helper is behind the
+					// schema lookup and the validation
+					isLookup := func(cond ssa.Value) bool {
+						ex, ok := cond.(*ssa.Extract)
+						if !ok || ex.Index != 1 {
+							return false
+						}
+						l, ok := ex.Tuple.(*ssa.Lookup)
+						return ok && l.CommaOk && loadedField(l.X) != nil && fieldName(loadedField(l.X)) == "outputSchema"
+					}
+					isValErr := func(cond ssa.Value) bool {
+						b, ok := cond.(*ssa.BinOp)
+						if !ok || b.Op != token.NEQ || !isNilConst(b.Y) {
+							return false
+						}
+						return derivesFrom(b.X, func(x ssa.Value) bool {
+							call, ok := x.(*ssa.Call)
+							return ok && isMethodNamed(call, "schema.StepOutputSchema", "Unserialize")
+						})
+					}
+					viaHelper := guardedBy(ret, false, func(cond ssa.Value) bool {
+						b, ok := cond.(*ssa.BinOp)
+						if !ok || b.Op != token.NEQ || !isNilConst(b.Y) {
+							return false
+						}
+						hc, ok := b.X.(*ssa.Call)
+						if !ok {
+							return false
+						}
+						h := hc.Common().StaticCallee()
+						if h == nil || !isRepoFn(h) || len(h.Blocks) == 0 {
+							return false
+						}
+						okAll, nNil := true, 0
+						eachInstr(h, func(r2 instrRef) {
+							ret2, ok := r2.I.(*ssa.Return)
+							if !ok {
+								return
+							}
+							rs := retResults(ret2)
+							if len(rs) == 0 || !isNilConst(rs[len(rs)-1]) {
+								return
+							}
+							nNil++
+							if guardedBy(ret2, true, isLookup) == nil || guardedBy(ret2, false, isValErr) == nil {
+								okAll = false
+							}
+						})
+						return okAll && nNil > 0
+					}) != nil
+					if viaHelper {
+						lookupOK, valOK = true, true
+					}
+				}
 				c.verdict(fromEntry && lookupOK && valOK, rule, key, c.instrPos(ret), "success return: id/data from the received output, after schema lookup and validation",
 					fmt.Sprintf("the success return is not properly guarded (from-received-output=%v schema-lookup=%v validated=%v)", fromEntry, lookupOK, valOK))
 				return
@@ -444,6 +500,38 @@ func (c *Ctx) errorProvablyNonNil(fn *ssa.Function, ret *ssa.Return, v ssa.Value
 		}) != nil {
 			return true, "tested for nil before the return"
 		}
+		// an error-building helper of the repository (`abortTimeoutError(cause, lastErrors)`): every one of its returns hands
+		// back a freshly built error
+		if h := x.Common().StaticCallee(); h != nil && isRepoFn(h) && len(h.Blocks) > 0 && h.Signature.Results().Len() == 1 {
+			allBuilt, nRet := true, 0
+			eachInstr(h, func(r2 instrRef) {
+				ret2, ok := r2.I.(*ssa.Return)
+				if !ok {
+					return
+				}
+				nRet++
+				rv := retResults(ret2)[0]
+				for i := 0; i < 3; i++ {
+					if mi, ok := rv.(*ssa.MakeInterface); ok {
+						rv = mi.X
+					} else if ci, ok := rv.(*ssa.ChangeInterface); ok {
+						rv = ci.X
+					}
+				}
+				switch y := rv.(type) {
+				case *ssa.Alloc:
+				case *ssa.Call:
+					if n2 := calleeName(y.Common()); n2 != "fmt.Errorf" && n2 != "errors.New" {
+						allBuilt = false
+					}
+				default:
+					allBuilt = false
+				}
+			})
+			if allBuilt && nRet > 0 {
+				return true, "built by " + c.fnName(h) + ", every return of which is a freshly built error"
+			}
+		}
 		// the drain of the run's error queue: non-nil if an error was queued on every path since the last wait
 		callee := x.Common().StaticCallee()
 		if callee != nil && callee.Pkg == fn.Pkg {
@@ -481,9 +569,24 @@ func (c *Ctx) errorProvablyNonNil(fn *ssa.Function, ret *ssa.Return, v ssa.Value
 			return true, "tested for nil before the return"
 		}
 	case *ssa.Parameter, *ssa.Phi, *ssa.UnOp:
+		sameCell := func(a, b ssa.Value) bool {
+			ua, ok1 := a.(*ssa.UnOp)
+			ub, ok2 := b.(*ssa.UnOp)
+			if !ok1 || !ok2 || ua.Op != token.MUL || ub.Op != token.MUL || ua.X != ub.X {
+				return false
+			}
+			// no store into the cell between the test and the return's load
+			if _, isAlloc := ua.X.(*ssa.Alloc); !isAlloc {
+				return false
+			}
+			return c.findPath(fn, ua, func(in ssa.Instruction) bool { return in == ssa.Instruction(ub) }, func(in ssa.Instruction) bool {
+				st, ok := in.(*ssa.Store)
+				return ok && st.Addr == ua.X
+			}) == nil
+		}
 		if guardedBy(ret, true, func(cond ssa.Value) bool {
 			b, ok := cond.(*ssa.BinOp)
-			return ok && b.Op == token.NEQ && b.X == v && isNilConst(b.Y)
+			return ok && b.Op == token.NEQ && (b.X == v || sameCell(b.X, v)) && isNilConst(b.Y)
 		}) != nil {
 			return true, "tested for nil before the return"
 		}
@@ -617,6 +720,7 @@ func c03R13(c *Ctx) {
 		}
 	}
 	// the list is append(groups, others...): its first operand is filled only under the group-kind test
+	isGroupTestOp := token.EQL
 	isGroupTest := func(cond ssa.Value) bool {
 		found := false
 		var walk func(v ssa.Value, d int)
@@ -626,7 +730,7 @@ func c03R13(c *Ctx) {
 			}
 			switch x := v.(type) {
 			case *ssa.BinOp:
-				if x.Op == token.EQL {
+				if x.Op == isGroupTestOp {
 					if s, ok := constString(x.Y); ok && s == groupKind {
 						found = true
 					}
@@ -660,7 +764,13 @@ func c03R13(c *Ctx) {
 			if !ok || !isBuiltinCall(ap, "append") || ap == call {
 				return false
 			}
-			if guardedBy(ap, true, isGroupTest) != nil {
+			isGroupTestOp = token.EQL
+			positive := guardedBy(ap, true, isGroupTest) != nil
+			// the guard clause form: `if err != nil || Kind != group { others = append(…); continue }` before the append
+			isGroupTestOp = token.NEQ
+			negative := guardedBy(ap, false, isGroupTest) != nil
+			isGroupTestOp = token.EQL
+			if positive || negative {
 				okFirst = true
 			} else {
 				okFirst = false
